@@ -22,6 +22,7 @@ pub fn def() -> CheckDef {
         assumptions: &["reference model as C01 decides which calls must be refused"],
         cpu_limit_s: 30,
         fault_kinds: "none (seam-level write counter is the oracle)",
+        count_subruns: false,
     }
 }
 
